@@ -4,6 +4,7 @@ import (
 	"encoding/json"
 	"fmt"
 	"math"
+	"sort"
 	"strings"
 	"time"
 
@@ -13,6 +14,7 @@ import (
 	"github.com/verily-src/fhirpath-go/fhirpath/verifharness/fx"
 	"github.com/verily-src/fhirpath-go/fhirpath/verifharness/gen"
 	"github.com/verily-src/fhirpath-go/internal/fhir"
+	"google.golang.org/protobuf/reflect/protoreflect"
 )
 
 // C11 — parsing respects FHIRPath precedence, associativity and token boundaries.
@@ -24,7 +26,7 @@ func init() {
 		Assumptions: []string{"unsupported alternatives (|, in, contains, ~) make all renderings fail alike: consistent, not a violation here",
 			"a string or unit word is never appended after a source ending in a NUMBER (that would form a quantity literal)"},
 		Run:    runC11,
-		Checks: map[string]func(*core.Env, []json.RawMessage){"tree": replayC11, "pure": replayC11Pure, "word": replayC11Word, "chain": replayC11Chain},
+		Checks: map[string]func(*core.Env, []json.RawMessage){"tree": replayC11, "pure": replayC11Pure, "word": replayC11Word, "chain": replayC11Chain, "typechain": replayC11TypeChain},
 		Threshold: func(m *core.Merged) []string {
 			var r []string
 			for _, k := range []string{"tree", "compiled", "rejected-consistently", "decorated", "trailing-token", "pure-tree", "min-differs-from-full", "string-method", "keyword-member", "compiled-without-options", "operator-chain"} {
@@ -78,6 +80,8 @@ func c11Check(env *core.Env, tree *gen.Expr, seed uint64, label string) {
 			variants = append(variants, struct{ name, src string }{"min-blanks", gen.JoinWith(tree.Tokens(false), sep)})
 		}
 	}
+	// no blanks except where two tokens would merge
+	variants = append(variants, struct{ name, src string }{"min-blanks", gen.JoinTight(tree.Tokens(false))})
 	if min != full {
 		env.Cover("min-differs-from-full")
 	}
@@ -421,6 +425,14 @@ func c11Word(env *core.Env, word string, shape int) {
 		tree = member(&gen.Expr{K: "ident", Text: "name"}, word) // name.<word> (un-rooted)
 	case 9:
 		tree = member(member(&gen.Expr{K: "ident", Text: "contact"}, "name"), word) // contact.name.<word>
+	case 11:
+		tree = &gen.Expr{K: "bin", Text: "&", Kids: []*gen.Expr{{K: "lit", Text: "'x'"}, w}} // 'x'&<word>
+	case 12:
+		tree = &gen.Expr{K: "bin", Text: "&", Kids: []*gen.Expr{member(pat, "id"), {K: "func", Text: word, Kids: nil}}} // Patient.id&<word>()
+	case 13:
+		tree = &gen.Expr{K: "bin", Text: "<", Kids: []*gen.Expr{{K: "lit", Text: "1"}, member(w, "value")}} // 1<<word>.value
+	case 14:
+		tree = &gen.Expr{K: "bin", Text: "|", Kids: []*gen.Expr{w, member(pat, word)}} // <word>|Patient.<word>
 	default:
 		tree = member(member(w, "name"), "given") // <word>.name.given
 	}
@@ -431,7 +443,78 @@ func c11Word(env *core.Env, word string, shape int) {
 // c11Chain: two binary operators applied in a chain, `1 op1 2 op2 3`, grouped to the left and to the right, for
 // every pair of operators (also where the inner result cannot be an operand of the outer operator: whether such a
 // program is accepted and what it yields must not depend on redundant parentheses or blanks).
-var c11Ops = []string{"*", "/", "div", "mod", "+", "-", "&", "<", "<=", ">", ">=", "=", "!=", "and", "or", "xor", "implies"}
+var c11Ops = []string{"*", "/", "div", "mod", "+", "-", "&", "|", "<", "<=", ">", ">=", "=", "!=", "~", "!~", "in", "contains", "and", "or", "xor", "implies"}
+
+// c11TypeChain: a type operator next to a binary operator, in the three possible groupings.
+var c11TypeOps = []string{"is Integer", "as Integer", "is Boolean", "as Boolean", "is System.String", "as Quantity"}
+
+func c11TypeChain(env *core.Env, op, typeOp string, operands int, grouping int) {
+	defer env.In("typechain", op, typeOp, operands, grouping)()
+	sets := [][2]string{{"1", "2"}, {"true", "false"}, {"'a'", "'b'"}, {"3", "2"}, {"{}", "1"}, {"2", "2"}}
+	o := sets[operands%len(sets)]
+	l := func(t string) *gen.Expr {
+		if t == "{}" {
+			return &gen.Expr{K: "empty", Text: "{}"}
+		}
+		return &gen.Expr{K: "lit", Text: t}
+	}
+	parts := strings.SplitN(typeOp, " ", 2)
+	ty := func(e *gen.Expr) *gen.Expr {
+		return &gen.Expr{K: "type", Text: parts[0], Kids: []*gen.Expr{e, {K: "lit", Text: parts[1]}}}
+	}
+	var tree *gen.Expr
+	switch grouping {
+	case 0:
+		tree = ty(&gen.Expr{K: "bin", Text: op, Kids: []*gen.Expr{l(o[0]), l(o[1])}}) // (a op b) is T
+	case 1:
+		tree = &gen.Expr{K: "bin", Text: op, Kids: []*gen.Expr{l(o[0]), ty(l(o[1]))}} // a op (b is T)
+	default:
+		tree = &gen.Expr{K: "bin", Text: op, Kids: []*gen.Expr{ty(l(o[0])), l(o[1])}} // (a is T) op b
+	}
+	env.Cover("type-operator-chain")
+	c11Check(env, tree, uint64(operands)*7+uint64(len(op))*131+uint64(len(typeOp))+uint64(grouping), "typechain")
+}
+
+func replayC11TypeChain(env *core.Env, a []json.RawMessage) {
+	var op, typeOp string
+	var operands, grouping int
+	json.Unmarshal(a[0], &op)
+	json.Unmarshal(a[1], &typeOp)
+	json.Unmarshal(a[2], &operands)
+	json.Unmarshal(a[3], &grouping)
+	c11TypeChain(env, op, typeOp, operands, grouping)
+}
+
+// c11ElementNames: every element name of every resource type and data type reachable from the resource types.
+func c11ElementNames() []string {
+	seen := map[string]bool{}
+	seenMsg := map[protoreflect.FullName]bool{}
+	var walk func(d protoreflect.MessageDescriptor)
+	walk = func(d protoreflect.MessageDescriptor) {
+		if seenMsg[d.FullName()] {
+			return
+		}
+		seenMsg[d.FullName()] = true
+		fs := d.Fields()
+		for i := 0; i < fs.Len(); i++ {
+			seen[fs.Get(i).JSONName()] = true
+			if m := fs.Get(i).Message(); m != nil && strings.HasPrefix(string(m.FullName()), "google.fhir.r4.core.") && m.Name() != "ContainedResource" {
+				walk(m)
+			}
+		}
+	}
+	for _, md := range gen.ResourceTypes() {
+		walk(md)
+	}
+	var names []string
+	for n := range seen {
+		if n != "" && n[0] >= 'a' && n[0] <= 'z' {
+			names = append(names, n)
+		}
+	}
+	sort.Strings(names)
+	return names
+}
 
 func c11Chain(env *core.Env, op1, op2 string, operands int, right bool) {
 	defer env.In("chain", op1, op2, operands, right)()
@@ -497,10 +580,45 @@ func runC11(env *core.Env) {
 	}
 	k := 0
 	for _, w := range c11Words {
-		for shape := 0; shape < 11; shape++ {
+		for shape := 0; shape < 15; shape++ {
+			if shape == 12 {
+				continue
+			}
 			k++
 			if env.Mine(k) {
 				c11Word(env, w, shape)
+			}
+		}
+	}
+	// every element name and function name directly after an operator symbol (no blank in the tight re-spelling)
+	for _, w := range c11ElementNames() {
+		for _, shape := range []int{11, 13, 14} {
+			k++
+			if env.Mine(k) {
+				env.Cover("element-name-after-operator")
+				c11Word(env, w, shape)
+			}
+		}
+	}
+	for _, w := range funcNames() {
+		k++
+		if env.Mine(k) {
+			c11Word(env, w, 12)
+		}
+	}
+	for i1, op := range c11Ops {
+		for i2, typeOp := range c11TypeOps {
+			for grouping := 0; grouping < 3; grouping++ {
+				sets := []int{(i1 + i2) % 6, (i1 + i2 + 3) % 6}
+				if !env.Quick() {
+					sets = []int{0, 1, 2, 3, 4, 5}
+				}
+				for _, set := range sets {
+					k++
+					if env.Mine(k) {
+						c11TypeChain(env, op, typeOp, set, grouping)
+					}
+				}
 			}
 		}
 	}
